@@ -20,6 +20,11 @@ pub struct SignatureError { _p: () }
 
 impl VerifyingKey {
     pub uninterp spec fn bytes(&self) -> Seq<u8>;
+    /// Ed25519 verification predicate: uninterpreted
+    pub uninterp spec fn spec_verify(&self, msg: Seq<u8>, sig: Signature) -> bool;
+    /// `Verifier::verify` of the dependency
+    #[verifier::external_body]
+    pub fn verify(&self, msg: &[u8], sig: &Signature) -> (r: Result<(), SignatureError>) ensures (r is Ok) == self.spec_verify(msg@, *sig) { unimplemented!() }
     #[verifier::external_body]
     pub fn as_bytes(&self) -> (r: &[u8; 32]) ensures r@ == self.bytes(), self.bytes().len() == 32 { unimplemented!() }
     #[verifier::external_body]
@@ -43,6 +48,11 @@ impl SigningKey {
     pub fn from_bytes(b: &[u8; 32]) -> (r: SigningKey) ensures r.sk_bytes() == b@ { unimplemented!() }
     #[verifier::external_body]
     pub fn verifying_key(&self) -> (r: VerifyingKey) ensures r == self.spec_verifying_key() { unimplemented!() }
+    /// Ed25519 signing function: uninterpreted
+    pub uninterp spec fn spec_sign_msg(&self, msg: Seq<u8>) -> Signature;
+    /// `Signer::sign` of the dependency
+    #[verifier::external_body]
+    pub fn sign(&self, msg: &[u8]) -> (r: Signature) ensures r == self.spec_sign_msg(msg@) { unimplemented!() }
 }
 impl Clone for SigningKey {
     #[verifier::external_body]
